@@ -31,6 +31,10 @@ def ob_json(w, r, ob, k, c):
 
 
 def one(w, k, timeout):
+    sl = None
+    if "@@" in k:                       # "key@@i/n": this worker discharges slice i of n
+        k, spec = k.split("@@")
+        sl = tuple(int(x) for x in spec.split("/"))
     if k.startswith("lemma::"):
         c = {"key": k}
         r = runmod.lemma_result(w, k[7:])
@@ -43,18 +47,22 @@ def one(w, k, timeout):
         h = getattr(m, "prepare", None)
         if h:
             h(w, r)
-    for ob in r.obligations:
-        solve.discharge(w, ob, timeout)
+    for j, ob in enumerate(r.obligations):
+        if sl is None or j % sl[1] == sl[0]:
+            solve.discharge(w, ob, timeout)
+        else:
+            ob.status = "other-slice"
     counts = {}
     obs = []
     for ob in sorted(r.obligations, key=lambda o: (o.kind, o.name, o.line or 0)):
         i = counts.get(ob.ident(), 0)
         counts[ob.ident()] = i + 1
-        obs.append(ob_json(w, r, ob, i, c))
+        if ob.status != "other-slice":
+            obs.append(ob_json(w, r, ob, i, c))
     fj = {"key": k, "sha": r.sha, "paths": r.paths, "returns": r.returns, "raises": r.raises,
           "unsupported": r.unsupported, "dropped": r.dropped, "notes": sorted(set(r.notes)),
-          "obligations": obs}
-    g = [] if k.startswith("lemma::") else guards.for_function(w, k, r)
+          "n_total": len(r.obligations), "obligations": obs}
+    g = [] if (k.startswith("lemma::") or (sl and sl[0] != 0)) else guards.for_function(w, k, r)
     return (fj, g)
 
 
@@ -81,8 +89,15 @@ def main():
     jobs = int(os.environ.get("VERIF_JOBS", "8"))
     if len(keys) > 1 and jobs > 1:
         import subprocess, tempfile
-        chunks = [[] for _ in range(min(jobs, len(keys)))]
-        for i, k in enumerate(keys):
+        # a function whose contract says "parallel": n is split into n obligation slices
+        work = []
+        for k in keys:
+            n = 1 if k.startswith("lemma::") else int(w.contracts[k].get("parallel", 1))
+            work.extend([k] if n <= 1 else [f"{k}@@{i}/{n}" for i in range(n)])
+        chunks = [[] for _ in range(min(jobs, len(work)))]
+        # heaviest (sliced) items first, round robin
+        work.sort(key=lambda x: 0 if "@@" in x else 1)
+        for i, k in enumerate(work):
             chunks[i % len(chunks)].append(k)
         procs = []
         td = tempfile.mkdtemp(prefix="pjson_", dir=os.path.dirname(os.path.abspath(a.json)))
@@ -95,11 +110,21 @@ def main():
             p_.wait()
             if os.path.exists(of):
                 for fr in json.load(open(of)):
-                    results[fr[0]["key"]] = fr
+                    key_ = fr[0]["key"]
+                    if key_ in results:        # another slice of the same function: merge
+                        results[key_][0]["obligations"].extend(fr[0]["obligations"])
+                        results[key_][1].extend(fr[1])
+                    else:
+                        results[key_] = fr
         import shutil
         shutil.rmtree(td, ignore_errors=True)
         for k in keys:
             if k in results:
+                results[k][0]["obligations"].sort(key=lambda o: o["id"])
+                if len(results[k][0]["obligations"]) != results[k][0].get("n_total"):
+                    results[k][0]["unsupported"] = (
+                        f"obligation slices incomplete: {len(results[k][0]['obligations'])} of "
+                        f"{results[k][0].get('n_total')} (a worker died)")
                 out["functions"].append(results[k][0])
                 out["guards"].extend(results[k][1])
             elif not (not k.startswith("lemma::") and w.contracts[k].get("optional")):
